@@ -138,9 +138,57 @@ type c14Gate struct {
 	dead     chan struct{}
 	removes  atomic.Int64
 	spCopies atomic.Int64
+	holdAt   int
+	calls    int
+	heldCh   chan struct{}
+	resumeCh chan struct{}
+}
+
+// armHold: the n-th storage call (document reads and copies, counted from now) of the artifact creation parks
+// until resume(); n < 0 disarms
+func (l *c14Gate) armHold(n int) {
+	l.mu.Lock()
+	defer l.mu.Unlock()
+	l.holdAt, l.calls = n, 0
+	l.heldCh, l.resumeCh = make(chan struct{}), make(chan struct{})
+}
+
+func (l *c14Gate) resume() {
+	l.mu.Lock()
+	defer l.mu.Unlock()
+	close(l.resumeCh)
+	l.holdAt = -1
+}
+
+func (l *c14Gate) storageCall() {
+	l.mu.Lock()
+	park := l.holdAt >= 0 && l.calls == l.holdAt
+	l.calls++
+	heldCh, resumeCh := l.heldCh, l.resumeCh
+	l.mu.Unlock()
+	if park {
+		close(heldCh)
+		select {
+		case <-resumeCh:
+		case <-l.dead:
+		}
+	}
+}
+
+func (l *c14Gate) Read(p string) ([]byte, error) {
+	if path.Base(p) == "checkpoints" {
+		l.storageCall()
+	}
+	return l.StorageLocation.Read(p)
 }
 
 func (l *c14Gate) Copy(src, dst string) error {
+	l.storageCall()
+	select {
+	case <-l.dead:
+		return fmt.Errorf("storage abandoned")
+	default:
+	}
 	err := l.StorageLocation.Copy(src, dst)
 	if err == nil && strings.HasSuffix(dst, "job.savepoint") {
 		l.spCopies.Add(1)
@@ -152,6 +200,9 @@ func (l *c14Gate) Write(p string, data io.Reader) (string, error) {
 	b, err := io.ReadAll(data)
 	if err != nil {
 		return "", err
+	}
+	if path.Base(p) == "checkpoints" {
+		l.storageCall() // the document written into the artifact (D53 repair): a storage call of the creation
 	}
 	if strings.HasSuffix(p, ".snapshot") {
 		c := &c14Parked{path: p, rel: make(chan struct{})}
@@ -341,7 +392,10 @@ func c14RenderJob(ck *snapshotpb.JobCheckpoint) string {
 	for i, o := range ck.GetOperatorCheckpoints() {
 		ops[i] = fmt.Sprintf("%s@%d@%s", o.OperatorId, o.CheckpointId, o.DkvFileUri)
 	}
-	return fmt.Sprintf("j:%d~%s~%s", ck.GetId(), strings.Join(src, "+"), strings.Join(ops, ","))
+	for _, sc := range ck.GetSourceCheckpoints() {
+		src = append(src, "|"+string(sc.GetSplitterState()))
+	}
+	return fmt.Sprintf("j:%d~%s~%s", ck.GetId(), strings.Join(src, ""), strings.Join(ops, ","))
 }
 
 func c14RenderContent(p string, b []byte) string {
@@ -369,7 +423,8 @@ type c14Splitter struct {
 	n atomic.Int64
 }
 
-func (c *c14Splitter) Checkpoint() []byte { c.n.Add(1); return nil }
+// the splitter's own state travels in the job snapshot too (rendered after the split states)
+func (c *c14Splitter) Checkpoint() []byte { c.n.Add(1); return []byte("SPL") }
 
 type c14Key struct {
 	id uint64
@@ -413,6 +468,8 @@ type c14Run struct {
 	hasRef          bool
 	released        bool
 	restoredListing string
+	parkedPub       *c14Held
+	heldCreated     map[uint64]bool   // savepoints whose creation was parked: the working storage changed meanwhile
 	root            string            // cfg=local: the temp directory, shown as /L in every output
 	completed       []uint64          // ids the current store holds as completed
 	fresh           bool              // nothing touched the operators' files since the last successful load
@@ -642,6 +699,68 @@ func (r *c14Run) artListing() string {
 		return "-"
 	}
 	return strings.Join(ws, " ")
+}
+
+// a publication that was released; `wasHeld`: its artifact creation was parked between two storage calls
+type c14Held struct {
+	id             uint64
+	expectCleanup  bool
+	removesBefore  int64
+	spCopiesBefore int64
+	wasHeld        bool
+}
+
+// awaitPublication waits for the released publication to finish (or, if allowed, to park at the armed storage call)
+func (r *c14Run) awaitPublication(h *c14Held, mayHold bool) string {
+	id := h.id
+	res := ""
+	var heldCh chan struct{}
+	if mayHold {
+		heldCh = r.loc.heldCh
+	}
+	select {
+	case <-heldCh:
+		r.parkedPub = h
+		return "held"
+	case <-r.events:
+		res = fmt.Sprintf("published %d", id)
+	case <-r.errs:
+		res = fmt.Sprintf("savepoint-error %d", id)
+	case <-time.After(10 * time.Second):
+		return "timeout"
+	}
+	r.loc.armHold(-1)
+	r.released = true
+	if h.expectCleanup {
+		deadline := time.Now().Add(5 * time.Second)
+		for r.loc.removes.Load() == h.removesBefore && time.Now().Before(deadline) {
+			time.Sleep(200 * time.Microsecond)
+		}
+		if r.loc.removes.Load() == h.removesBefore {
+			res += " cleanup-missing"
+		}
+	}
+	// an artifact was completed during this publication (its job.savepoint was copied)
+	if strings.HasPrefix(res, "published") && r.loc.spCopies.Load() > h.spCopiesBefore {
+		if b, err := r.raw.Read(r.uriOf(c14SavepointJobPath(id))); err == nil {
+			var ck snapshotpb.JobCheckpoint
+			if unmarshalProto(b, &ck) == nil && ck.Id == id {
+				r.created[id] = &ck
+				r.heldCreated[id] = h.wasHeld
+				r.countShape(&ck)
+				// what the original working storage gives for the savepoint's handles, and what the operators held
+				for _, o := range ck.GetOperatorCheckpoints() {
+					i, _ := strconv.Atoi(strings.TrimPrefix(o.OperatorId, "op"))
+					if !h.wasHeld {
+						r.original[c14Key{id, i}] = r.openScan(recovery.CheckpointHandle{CheckpointID: o.CheckpointId, URI: o.DkvFileUri})
+					}
+					r.spCkpt[c14Key{id, i}] = r.atCkpt[c14Key{id, i}]
+				}
+				return res + " savepoint"
+			}
+		}
+	}
+	return res
 }
 
 func (r *c14Run) step(op string) string {
@@ -892,7 +1011,13 @@ func (r *c14Run) step1(op string) string {
 		if !wasDumped {
 			return "nodump"
 		}
-		if len(f) != 2 {
+		if r.parkedPub != nil {
+			return "busy"
+		}
+		hold := -1
+		if len(f) == 4 && f[2] == "hold" {
+			hold, _ = strconv.Atoi(f[3])
+		} else if len(f) != 2 {
 			return "bad-op"
 		}
 		k, _ := strconv.Atoi(f[1])
@@ -905,56 +1030,32 @@ func (r *c14Run) step1(op string) string {
 		r.loc.parked = append(r.loc.parked[:k:k], r.loc.parked[k+1:]...)
 		r.loc.mu.Unlock()
 		id, _ := c14JobPathID(c.path)
-		r.released = true
 		// the store removes the job snapshots of older completed checkpoints from its own goroutine: wait for it
-		expectCleanup, removesBefore := false, r.loc.removes.Load()
+		h := &c14Held{id: id, removesBefore: r.loc.removes.Load(), spCopiesBefore: r.loc.spCopies.Load()}
 		var kept []uint64
 		for _, old := range r.completed {
 			if old < id {
-				expectCleanup = true
+				h.expectCleanup = true
 			} else {
 				kept = append(kept, old)
 			}
 		}
 		r.completed = append([]uint64{id}, kept...)
-		spCopiesBefore := r.loc.spCopies.Load()
+		r.loc.armHold(hold)
 		close(c.rel)
-		res := ""
-		select {
-		case <-r.events:
-			res = fmt.Sprintf("published %d", id)
-		case <-r.errs:
-			res = fmt.Sprintf("savepoint-error %d", id)
-		case <-time.After(10 * time.Second):
-			return "timeout"
+		return r.awaitPublication(h, hold >= 0)
+	case "resume":
+		if r.parkedPub == nil {
+			return "nohold"
 		}
-		if expectCleanup {
-			deadline := time.Now().Add(5 * time.Second)
-			for r.loc.removes.Load() == removesBefore && time.Now().Before(deadline) {
-				time.Sleep(200 * time.Microsecond)
-			}
-			if r.loc.removes.Load() == removesBefore {
-				res += " cleanup-missing"
-			}
+		if !wasDumped {
+			return "nodump"
 		}
-		// an artifact was completed during this publication (its job.savepoint was copied)
-		if strings.HasPrefix(res, "published") && r.loc.spCopies.Load() > spCopiesBefore {
-			if b, err := r.raw.Read(r.uriOf(c14SavepointJobPath(id))); err == nil {
-				var ck snapshotpb.JobCheckpoint
-				if unmarshalProto(b, &ck) == nil && ck.Id == id {
-					r.created[id] = &ck
-					r.countShape(&ck)
-					// what the original working storage gives for the savepoint's handles, and what the operators held
-					for _, o := range ck.GetOperatorCheckpoints() {
-						i, _ := strconv.Atoi(strings.TrimPrefix(o.OperatorId, "op"))
-						r.original[c14Key{id, i}] = r.openScan(recovery.CheckpointHandle{CheckpointID: o.CheckpointId, URI: o.DkvFileUri})
-						r.spCkpt[c14Key{id, i}] = r.atCkpt[c14Key{id, i}]
-					}
-					return res + " savepoint"
-				}
-			}
-		}
-		return res
+		h := r.parkedPub
+		r.parkedPub = nil
+		h.wasHeld = true
+		r.loc.resume()
+		return r.awaitPublication(h, false)
 	case "wipe":
 		r.abandon()
 		r.wiped = true
@@ -1065,7 +1166,7 @@ func (r *c14Run) step1(op string) string {
 			if strings.HasPrefix(got, "panic") || strings.HasPrefix(got, "error") {
 				return "restored-state-unreadable: " + got
 			}
-			if got != r.original[key] {
+			if !r.heldCreated[r.loaded.Id] && got != r.original[key] {
 				return "restored-state-differs-from-original-storage got=[" + c14Short(got) + "] want=[" + c14Short(r.original[key]) + "]"
 			}
 			if got != r.spCkpt[key] {
@@ -1153,6 +1254,7 @@ func (r *c14Run) countShape(ck *snapshotpb.JobCheckpoint) {
 
 // abandon the current job: parked publications fail, nothing of it writes any more
 func (r *c14Run) abandon() {
+	r.parkedPub = nil
 	if r.loc != nil {
 		select {
 		case <-r.loc.dead:
@@ -1167,7 +1269,9 @@ func (r *c14Run) abandon() {
 
 // newStore starts a snapshot store (a job) on the storage, through a fresh gate
 func (r *c14Run) newStore(savepointURI string) {
-	r.loc = &c14Gate{StorageLocation: r.raw, notify: make(chan struct{}, 1), dead: make(chan struct{})}
+	r.loc = &c14Gate{StorageLocation: r.raw, notify: make(chan struct{}, 1), dead: make(chan struct{}), holdAt: -1,
+		heldCh: make(chan struct{}), resumeCh: make(chan struct{})}
+	r.parkedPub = nil
 	r.events, r.errs = make(chan string, 64), make(chan error, 64)
 	r.store = snapshots.NewStore(&snapshots.NewStoreParams{FileStore: r.loc, SavepointsPath: "savepoints", CheckpointsPath: "checkpoints",
 		CheckpointEvents: r.events, SavepointURI: savepointURI})
@@ -1184,13 +1288,16 @@ func (r *c14Run) newDB(dir string) *dkv.DB {
 }
 
 func c14Impl(c lib.Case) []string {
+	if strings.Contains(c.Header, "mode=cluster") {
+		return c14ClusterImpl(c)
+	}
 	nOps, mem, l0, cfg := c14Header(c.Header)
 	// no collection while a case runs: the DKV deletes table files from cleanups of collected tables, at moments
 	// that depend on the collector (previous instances stay referenced until the case ends)
 	defer debug.SetGCPercent(debug.SetGCPercent(-1))
 	r := &c14Run{nOps: nOps, mem: mem, l0: l0, lastH: map[int]recovery.CheckpointHandle{}, gen: map[int]int{}, events: make(chan string, 64), errs: make(chan error, 64), split: &c14Splitter{},
 		acked: map[int]bool{}, docURI: map[int]string{}, held: map[int][]uint64{}, uris: map[string]bool{},
-		spCkpt: map[c14Key]string{}, atCkpt: map[c14Key]string{}, original: map[c14Key]string{}, created: map[uint64]*snapshotpb.JobCheckpoint{}}
+		heldCreated: map[uint64]bool{}, spCkpt: map[c14Key]string{}, atCkpt: map[c14Key]string{}, original: map[c14Key]string{}, created: map[uint64]*snapshotpb.JobCheckpoint{}}
 	if cfg == "s3" {
 		// the S3 configuration: S3Location + dkv S3FileSystem over the repository's in-memory S3 service
 		svc := &c14LockedS3{inner: objstore.NewMemoryS3Service()}
@@ -1333,6 +1440,9 @@ func c14GenRollback(r *lib.Rng) lib.Case {
 }
 
 func c14Gen(r *lib.Rng, tier string, i int) lib.Case {
+	if r.Chance(1, 12) {
+		return c14ClusterGen(r) // the real Job + workers end to end
+	}
 	if r.Chance(1, 5) {
 		return c14GenRollback(r)
 	}
@@ -1475,7 +1585,24 @@ func c14Gen(r *lib.Rng, tier string, i int) lib.Case {
 		tags = append(tags, "lose")
 		ops = append(ops, fmt.Sprintf("lose %d %d", r.Intn(n), r.Intn(50)))
 	}
-	ops = append(ops, "dump", "release 0", "intact")
+	if r.Chance(1, 5) {
+		// the artifact creation is parked before one of its storage calls (document reads and copies) while the job
+		// goes on: next checkpoint, operators' checkpoints, retention updates (D53 when it hits the document copy)
+		tags = append(tags, "held-creation")
+		ops = append(ops, "dump", fmt.Sprintf("release 0 hold %d", r.Intn(7)), "ckpt")
+		writes(r.Intn(6))
+		for o := 0; o < n; o++ {
+			if r.Chance(2, 3) {
+				ops = append(ops, fmt.Sprintf("opck %d", o))
+				if r.Chance(1, 2) {
+					ops = append(ops, fmt.Sprintf("retain %d %d", o, nextID))
+				}
+			}
+		}
+		ops = append(ops, "dump", "resume")
+	} else {
+		ops = append(ops, "dump", "release 0", "intact")
+	}
 	if second && r.Chance(1, 2) {
 		ops = append(ops, "dump", "release 0")
 	}
@@ -1563,6 +1690,30 @@ func c14Fixed(tier string) []lib.Case {
 		{Header: "M C14 ops=2 mem=250 cfg=local", Tags: []string{"restart-twice", "seeded-C14-4"}, Ops: []string{
 			"put 0 61 01", "put 1 62 " + big, "put 1 63 " + big, "sp", "opck 1", "opck 0", "srcack", "dump", "release 0", "intact", "wipe", "load 1",
 			"open 0", "open 1", "put 0 62 02", "ckpt", "opck 0", "opck 1", "srcack", "dump", "release 0", "wipe", "load 1", "open 0", "open 1", "work", "art"}},
+		// D53 (open): the operator applies the retention of the next checkpoint while the artifact of savepoint 1 is being
+		// copied, just before its document is copied: the announced savepoint cannot be restored
+		{Header: "M C14 ops=1 mem=100000 cfg=mem", Tags: []string{"held-creation", "regress-D53"}, Ops: []string{
+			"put 0 61 01", "sp", "opck 0", "srcack", "dump", "release 0 hold 2", "ckpt", "put 0 61 02", "opck 0", "retain 0 2",
+			"dump", "resume", "wipe", "load 1", "open 0", "art"}},
+		// the same moves before the document is READ (creation fails visibly) and before the WAL copy (copy fails visibly)
+		{Header: "M C14 ops=1 mem=100000 cfg=s3", Tags: []string{"held-creation"}, Ops: []string{
+			"put 0 61 01", "sp", "opck 0", "srcack", "dump", "release 0 hold 0", "ckpt", "put 0 61 02", "opck 0", "retain 0 2",
+			"dump", "resume", "wipe", "load 1", "open 0", "art"}},
+		{Header: "M C14 ops=1 mem=100000 cfg=local", Tags: []string{"held-creation"}, Ops: []string{
+			"put 0 61 01", "sp", "opck 0", "srcack", "dump", "release 0 hold 1", "ckpt", "put 0 61 02", "opck 0", "retain 0 2",
+			"dump", "resume", "wipe", "load 1", "open 0", "art"}},
+		// a held creation that nothing interferes with: later checkpoint added to the document only
+		{Header: "M C14 ops=2 mem=120 cfg=mem", Tags: []string{"held-creation"}, Ops: []string{
+			"put 0 61 " + big, "put 0 62 " + big, "put 1 63 01", "sp", "opck 0", "opck 1", "srcack", "dump", "release 0 hold 3", "ckpt",
+			"put 0 61 02", "opck 0", "opck 1", "dump", "resume", "wipe", "load 1", "open 0", "open 1", "work", "art"}},
+		// cluster mode: real Job.HandleCreateSavepoint (folded into a periodic checkpoint), wipe, jobs.New{SavepointURI},
+		// real operators deployed from the restored handles: same count, then a different count
+		{Header: "M C14 mode=cluster n=2 kgc=8 splits=2 keys=4 rot=2", Tags: []string{"cluster"}, Ops: []string{
+			"boot", "feed 1 20", "ckpt 3", "feed 2 9", "savepoint 5 fold", "feed 3 7", "ckpt 4", "restart 2 wipe", "feed 4 18"}},
+		{Header: "M C14 mode=cluster n=2 kgc=8 splits=3 keys=5 rot=0", Tags: []string{"cluster", "cluster-rescale"}, Ops: []string{
+			"boot", "feed 11 24", "savepoint 6", "feed 12 5", "restart 3 wipe", "feed 13 20"}},
+		{Header: "M C14 mode=cluster n=3 kgc=16 splits=2 keys=6 rot=0", Tags: []string{"cluster", "cluster-rescale"}, Ops: []string{
+			"boot", "feed 21 24", "savepoint 7", "restart 1 keep", "feed 23 20"}},
 		// a savepoint request folds into the pending checkpoint
 		{Header: "M C14 ops=2 mem=250", Tags: []string{"fold"}, Ops: []string{
 			"put 0 61 01", "put 1 62 02", "ckpt", "opck 1", "sp", "sp", "ckpt", "put 0 61 03", "opck 0", "srcack",
@@ -1594,6 +1745,9 @@ func propC14() *lib.Prop {
 				if strings.HasPrefix(c.Ops[i], "open ") && o == "ok" {
 					ok = true
 				}
+				if o == "restored ok" { // cluster mode: the real job started from the savepoint URI
+					sp, ok = true, true
+				}
 			}
 			return sp && ok
 		},
@@ -1608,7 +1762,7 @@ func propC14() *lib.Prop {
 		},
 		MObs: func(op string) bool {
 			switch strings.Fields(op + " x")[0] {
-			case "dump", "art", "work", "junk", "retain", "lose":
+			case "dump", "art", "work", "junk", "retain", "lose", "redeploy":
 				return true
 			}
 			return false
